@@ -224,8 +224,27 @@ def removePoliciesWN (e : Enf) (sec pt : String) (rules : List Rule) : Enf × MR
 def removePolicies (e : Enf) (sec pt : String) (rules : List Rule) : Enf × MRes :=
   withNotify (e.removePoliciesWN sec pt rules) (some s!"RemovePolicies({sec};{pt};{showRules rules})") none
 
+/-- `Enforcer.updatable` (the repair of findings D12 and D18): asked before the adapter is touched.
+    Every old rule is listed and named once; a new rule that differs from the rule it replaces is
+    neither listed nor named twice.  Keys, as in Go (`HasPolicy` looks the joined rule up). -/
+def updatableFrom (s : Store) : List String → List String → List (Rule × Rule) → Bool
+  | _, _, [] => true
+  | seenOld, seenNew, (o, n) :: rest =>
+      if !s.has o then false
+      else if seenOld.contains (ruleKey o) then false
+      else if ruleKey n == ruleKey o then updatableFrom s (ruleKey o :: seenOld) seenNew rest
+      else if s.has n then false
+      else if seenNew.contains (ruleKey n) then false
+      else updatableFrom s (ruleKey o :: seenOld) (ruleKey n :: seenNew) rest
+
+def updatable (s : Store) (olds news : List Rule) : Bool := updatableFrom s [] [] (olds.zip news)
+
 /-- `updatePolicyWithoutNotify` -/
 def updatePolicyWN (e : Enf) (sec pt : String) (old new : Rule) : Enf × MRes :=
+  match e.getStore sec pt with
+  | none => (e, .err false)          -- HasPolicy reports the missing definition
+  | some s0 =>
+  if !updatable s0 [old] [new] then (e, .ok false) else
   let (e, okA) := if e.shouldPersist
     then e.adapterCall s!"UpdatePolicy({pt};{showRule old};{showRule new})"
       (fun a => if a.has pt old then { a with lines := a.lines.map (fun l => if l == (pt, old) then (pt, new) else l) } else a)
@@ -254,6 +273,10 @@ def updatePolicy (e : Enf) (sec pt : String) (old new : Rule) : Enf × MRes :=
 def updatePoliciesWN (e : Enf) (sec pt : String) (olds news : List Rule) : Enf × MRes :=
   if olds.length != news.length then (e, .err false)
   else
+    match e.getStore sec pt with
+    | none => (e, .err false)
+    | some s0 =>
+    if !updatable s0 olds news then (e, .ok false) else
     let (e, okA) := if e.shouldPersist
       then e.adapterCall s!"UpdatePolicies({pt};{showRules olds};{showRules news})"
         (fun a => (olds.zip news).foldl (fun a (o, n) =>
